@@ -8,7 +8,7 @@ from fractions import Fraction
 from ..interp import cval, has_const
 from ..source import norm_text
 from .common import def_map, expand
-from .geo import uniq_events
+from .geo import kind_errors, uniq_events
 
 TTV = 'gemdat.volume.trajectory_to_volume'
 VOL = 'gemdat.volume.Volume'
@@ -59,6 +59,7 @@ def check(ctx):
     for n in ast.walk(fi.node):
         if isinstance(n, ast.Assign) and len(n.targets) == 1 and isinstance(n.targets[0], ast.Name):
             env.setdefault(n.targets[0].id, n.value)
+    nerr = kind_errors(ctx, 'R1', it, inside)
     # ---- R1 / R2 per digitize call
     digs = uniq_events(it, {'digitize'}, inside)
     if len(digs) != 3:
@@ -68,7 +69,9 @@ def check(ctx):
         x, bins = e['x'], e['bins']
         xa = x.axis if x is not None else None
         ba = bins.axis if bins is not None else None
-        if xa is None or ba is None:
+        if (xa is None or ba is None) and nerr:
+            pass  # already reported as a kind error
+        elif xa is None or ba is None:
             ctx.ob('R1', fi, e['node'], None, f'axis of the coordinate column ({xa}) or of the edges ({ba}) not derivable')
         else:
             ctx.ob('R1', fi, e['node'], xa == ba, f'axis {xa} coordinates binned with axis {ba} edges' if xa == ba else
